@@ -11,6 +11,10 @@ comparison is over the caller's operands and does not depend on parameter order)
                checks those very sums; cell guards compare with MAX_CELLS, frame guards with MAX_FRAMES, guard
                failure returns Err; both limits are < usize::MAX / 2
   C07.ctor     the only place a BitMachine is constructed is for_program (and its fields are private)
+  C07.wrap     the bound arithmetic cannot wrap or panic: type widths saturate at usize::MAX (Final::sum/product), so in
+               every NodeBounds constructor a sum of two non-constant cell/frame quantities is a saturating (or checked)
+               addition, as libsimplicity's bounded_add is — a plain `+` panics in debug builds and yields a far too
+               small bound in release builds for a ~60-byte program with a 2^64-bit intermediate type (F-BOUNDS-OVERFLOW)
 Does not decide: Frame cursor arithmetic stays inside its frame; the base case for jets (C owns their frames).
 """
 import re
@@ -47,6 +51,8 @@ def run(ctx, rep):
     rep.rule("C07.bounds", "stored extra_cells/extra_frames of v dominate the high-water mark of the interpreter's template for v")
     rep.rule("C07.size", "for_program: limits checked before allocating; allocations sized by the checked sums; right constants")
     rep.rule("C07.ctor", "BitMachine is only constructed in for_program")
+    rep.rule("C07.wrap", "sums of two non-constant cell/frame quantities in NodeBounds constructors are saturating or checked")
+    wrap(F, rep)
 
     # ---------------- per-variant bounds ----------------
     try:
@@ -275,6 +281,82 @@ def run(ctx, rep):
         else:
             rep.ok("C07.ctor", "all fields private", None)
     return FINISH
+
+
+def _plain_sums(t, out, consts_ok=True):
+    """('bin', Add.., a, b) nodes that can overflow: both operands non-constant, or (consts_ok=False) any"""
+    if not isinstance(t, tuple) or not t:
+        return
+    if t[0] == "bin" and t[1] in ("Add", "AddWithOverflow", "AddUnchecked", "Mul", "MulWithOverflow") and len(t) >= 4:
+        has_const = (isinstance(t[2], tuple) and t[2][0] == "int") or (isinstance(t[3], tuple) and t[3][0] == "int")
+        if not has_const or not consts_ok:
+            out.append(t)
+    for x in t[1:]:
+        if isinstance(x, tuple):
+            if x and isinstance(x[0], tuple):
+                for y in x:
+                    _plain_sums(y, out, consts_ok)
+            else:
+                _plain_sums(x, out, consts_ok)
+
+
+def wrap(F, rep):
+    n = 0
+    for f0 in sorted(F.fns.values(), key=lambda x: x.path):
+        if f0.impl_adt != "simplicity::analysis::NodeBounds" or f0.impl_trait or f0.kind != "AssocFn":
+            continue
+        f = F.inlined(f0)
+        T = None
+        for b in f.rpo():
+            for st in f.blocks[b]["s"]:
+                if not (st[0] == "=" and st[2].get("k") == "agg" and st[2].get("adt") == "simplicity::analysis::NodeBounds"):
+                    continue
+                T = T or Terms(f)
+                for fld, op in zip(st[2].get("fields") or [], st[2]["ops"]):
+                    if fld not in ("extra_cells", "extra_frames"):
+                        continue
+                    t = T.operand(op)
+                    if not fm.leaves(t) or all(x[0] == "int" for x in fm.leaves(t)):
+                        continue
+                    n += 1
+                    bad = []
+                    _plain_sums(t, bad)
+                    key = "NodeBounds::%s.%s" % (f0.name, fld)
+                    if bad:
+                        rep.violation("C07.wrap", key, "%s is computed with a plain `%s` of two non-constant quantities (%s): widths saturate at usize::MAX, "
+                                      "so the sum overflows — a panic in debug builds, a wrapped (too small) bound in release builds"
+                                      % (key, "+" if bad[0][1].startswith("Add") else "*", expr.canon(bad[0])[:90]),
+                                      "%s:%s" % (f.file, st[3] if len(st) > 3 else f.line))
+                    else:
+                        rep.ok("C07.wrap", key, expr.canon(t)[:80])
+    # the widths themselves: Final::sum / Final::product compute a type's bit width from its children's; a width can
+    # reach usize::MAX after 64 doublings, so here even `+ 1` must saturate
+    for nm in ("sum", "product"):
+        f0 = F.fn("simplicity::types::final_data::Final::" + nm)
+        if f0 is None:
+            rep.anchor("C07.wrap", "Final::" + nm)
+            continue
+        f = F.inlined(f0)
+        T = Terms(f)
+        for b in f.rpo():
+            for st in f.blocks[b]["s"]:
+                if not (st[0] == "=" and st[2].get("k") == "agg" and st[2].get("adt") == "simplicity::types::final_data::Final"):
+                    continue
+                flds = st[2].get("fields") or []
+                if "bit_width" not in flds:
+                    continue
+                t = T.operand(st[2]["ops"][flds.index("bit_width")])
+                n += 1
+                bad = []
+                _plain_sums(t, bad, consts_ok=False)
+                key = "Final::%s.bit_width" % nm
+                if bad:
+                    rep.violation("C07.wrap", key, "%s is computed with a plain `+` (%s): a child width can already be usize::MAX (64 doublings of a word), "
+                                  "so the sum overflows — type finalisation, reached from every decoder, panics in debug builds and wraps the "
+                                  "width in release builds" % (key, expr.canon(bad[0])[:90]), "%s:%s" % (f.file, st[3] if len(st) > 3 else f.line))
+                else:
+                    rep.ok("C07.wrap", key, expr.canon(t)[:80])
+    rep.floor("C07.wrap", n, 8)
 
 
 def _prog_rename(s):
